@@ -18,7 +18,7 @@ import (
 )
 
 var repo = flag.String("repo", "/repo", "repository root")
-var out = flag.String("out", "", "output file (default stdout)")
+var outDir = flag.String("outdir", "", "output directory (coq/gen)")
 
 type gen struct {
 	fset *token.FileSet
@@ -189,40 +189,50 @@ func (g *gen) jidEscape() {
 			}
 		}
 	}
+	g.p("Fixpoint pair_up (s : bytes) : list (byte * byte) :=\n  match s with a :: b :: r => (a, b) :: pair_up r | _ => [] end.\n\n")
 	g.p("Definition unescape_pairs : list (byte * byte) := pair_up (hex \"%s\").\n\n", hexOf(pairs))
 }
 
+const header = "(* %s.v — written by /verif/translator from the repository's sources on every run. Do not edit. *)\nFrom XV Require Import lib.Bytes.\n\n"
+
+// A section reads some source files and writes one Coq file gen/<Name>.v.
+type section struct {
+	Name string
+	Run  func(*gen)
+}
+
+// sections is extended by init() functions in the other files of this package.
+var sections = []section{{"JidEscape", (*gen).jidEscape}}
+
 func main() {
 	flag.Parse()
-	g := &gen{fset: token.NewFileSet()}
-	g.p("(* Generated.v — written by /verif/translator from %s on every run. Do not edit. *)\n", "/repo")
-	g.p("From XV Require Import lib.Bytes.\n\n")
-	g.p("Fixpoint pair_up (s : bytes) : list (byte * byte) :=\n  match s with a :: b :: r => (a, b) :: pair_up r | _ => [] end.\n\n")
-	g.jidEscape()
-	for _, s := range sections {
-		s(g)
+	if *outDir == "" {
+		fmt.Fprintln(os.Stderr, "missing -outdir")
+		os.Exit(2)
 	}
-	sort.Strings(g.errs)
-	for _, e := range g.errs {
-		g.p("(* TRANSLATOR-ERROR: %s *)\n", strings.ReplaceAll(e, "*)", "* )"))
-		fmt.Fprintln(os.Stderr, "translator:", e)
-	}
-	text := g.sb.String()
-	if *out == "" {
-		fmt.Print(text)
-	} else {
-		old, err := os.ReadFile(*out)
+	failed := false
+	sort.Slice(sections, func(i, j int) bool { return sections[i].Name < sections[j].Name })
+	for _, sec := range sections {
+		g := &gen{fset: token.NewFileSet()}
+		g.p(header, sec.Name)
+		sec.Run(g)
+		sort.Strings(g.errs)
+		for _, e := range g.errs {
+			g.p("(* TRANSLATOR-ERROR: %s *)\n", strings.ReplaceAll(e, "*)", "* )"))
+			fmt.Fprintf(os.Stderr, "translator: %s: %s\n", sec.Name, e)
+			failed = true
+		}
+		text := g.sb.String()
+		path := filepath.Join(*outDir, sec.Name+".v")
+		old, err := os.ReadFile(path)
 		if err != nil || string(old) != text {
-			if err := os.WriteFile(*out, []byte(text), 0o644); err != nil {
+			if err := os.WriteFile(path, []byte(text), 0o644); err != nil {
 				fmt.Fprintln(os.Stderr, err)
 				os.Exit(2)
 			}
 		}
 	}
-	if len(g.errs) > 0 {
+	if failed {
 		os.Exit(3)
 	}
 }
-
-// sections is extended by the other files of this package.
-var sections []func(*gen)
